@@ -25,7 +25,7 @@ from __future__ import annotations
 import ast
 from typing import Dict, List, Optional, Tuple
 
-from ..astutil import ScopeNode, call_name, enclosing_stmt, test_atoms
+from ..astutil import ScopeNode, enclosing_stmt, test_atoms
 from ._helpers_str_v import _block_of, _split, Variant
 
 DICT_NAMES = {"dict", "Dict", "defaultdict", "DefaultDict", "OrderedDict"}
